@@ -1,6 +1,7 @@
 package main
 
 import (
+	"go/types"
 	"context"
 	"fmt"
 	"os"
@@ -137,6 +138,9 @@ func decodeSMTString(s string) string {
 // tryReplay: see file comment. Returns (reproduced, transcript).
 func tryReplay(w *World, o *Obligation, repo, replayPath string) (bool, string) {
 	spec, ok := replaySpecs[o.Fn]
+	if !ok {
+		spec, ok = autoReplaySpec(w, o)
+	}
 	if !ok || (o.Status != "failed" && o.ModelQuery == "") {
 		return false, ""
 	}
@@ -231,4 +235,48 @@ func parseGetValue(out string, n int) []string {
 		vals = append(vals, pair.list[1].String())
 	}
 	return vals
+}
+
+// autoReplaySpec: for a package-level function of the module whose parameters are all strings, integers or
+// booleans, the model's parameter values are simply passed to the real function; the oracle is "a runtime error
+// panic" (so this confirms safe.* and range.* counterexamples; clause violations need a hand-written oracle above).
+func autoReplaySpec(w *World, o *Obligation) (replaySpec, bool) {
+	if !strings.HasPrefix(o.Kind, "safe.") {
+		return replaySpec{}, false
+	}
+	f := w.funcs[o.Fn]
+	if f == nil || f.Signature.Recv() != nil || f.Pkg == nil || f.Parent() != nil || f.TypeParams().Len() > 0 || len(f.Params) == 0 || f.Signature.Variadic() {
+		return replaySpec{}, false
+	}
+	path := f.Pkg.Pkg.Path()
+	if !strings.HasPrefix(path, modPath) {
+		return replaySpec{}, false
+	}
+	sp := replaySpec{pkgDir: "." + strings.TrimPrefix(path, modPath), pkg: f.Pkg.Pkg.Name()}
+	var args []string
+	for _, p := range f.Params {
+		b, ok := types.Unalias(p.Type()).Underlying().(*types.Basic)
+		if !ok {
+			return replaySpec{}, false
+		}
+		kind := ""
+		switch {
+		case b.Info()&types.IsString != 0:
+			kind = "string"
+		case b.Info()&types.IsInteger != 0:
+			kind = "int"
+		case b.Info()&types.IsBoolean != 0:
+			kind = "bool"
+		default:
+			return replaySpec{}, false
+		}
+		sp.inputs = append(sp.inputs, replayInput{"a_" + p.Name(), q("p:" + p.Name()), kind})
+		arg := "a_" + p.Name()
+		if kind == "int" {
+			arg = fmt.Sprintf("%s(%s)", types.TypeString(p.Type(), func(*types.Package) string { return "" }), arg)
+		}
+		args = append(args, arg)
+	}
+	sp.body = fmt.Sprintf("%s(%s)", f.Name(), strings.Join(args, ", "))
+	return sp, true
 }
